@@ -3,7 +3,8 @@
    Model: Model/Woff2.v (+ Gen/Woff2Lut.v regenerated from src/woff2/lut.rs on every run).
    Specification side (what a conforming encoder may write): Proofs/Woff2Spec.v. *)
 From AV Require Import Base.Prelude Base.Lemmas Gen.Woff2Lut Model.Woff2
-  Proofs.Woff2Spec Proofs.Woff2Ints Proofs.Woff2Triplet Proofs.Woff2Glyf Proofs.Woff2Hmtx Proofs.Woff2Dir.
+  Proofs.Woff2Spec Proofs.Woff2Ints Proofs.Woff2Triplet Proofs.Woff2Glyf Proofs.Woff2Hmtx Proofs.Woff2Dir
+  Proofs.Woff2Provider.
 Open Scope Z_scope.
 
 (* ================================================================== (a) variable-length integers *)
@@ -260,6 +261,32 @@ Theorem C11_collection_member_tables : forall m ts fonts k idxs flavor,
   = Ok (map (fun i => (t_tag (nth (Z.to_nat i) ts tab0), t_data (nth (Z.to_nat i) ts tab0))) idxs).
 Proof. exact collection_member_tables. Qed.
 Print Assumptions C11_collection_member_tables.
+
+(* Woff2TableProvider::new on a TrueType font stored with the glyf, loca and hmtx transforms
+   (gs, h = the glyphs and metrics the encoder started from): hmtx is the plain serialisation of
+   h, glyf/loca are what the (modelled) writers produce from exactly gs, head carries the matching
+   indexToLocFormat, every other table is byte-identical.
+   PARTIAL with respect to C11: that G/L, read back as TrueType glyf/loca, describe gs again is
+   established by correspondence (the harness re-parses the output), not by this theorem. *)
+Theorem C11_transformed_font_tables_partial :
+  forall m ts flavor index gs h gt lt ht hdt mt hht head long G offs L,
+  Forall tabspec_ok ts -> NoDup (map t_tag ts) ->
+  In gt ts -> t_tag gt = tag_glyf -> t_transformed gt = true -> encodes_glyf_table m gs (t_data gt) ->
+  In lt ts -> t_tag lt = tag_loca -> t_transformed lt = true ->
+  In ht ts -> t_tag ht = tag_hmtx -> t_transformed ht = true ->
+  encodes_hmtx gs h (t_data ht) -> hmtx_ok gs h ->
+  In hdt ts -> t_tag hdt = tag_head -> t_transformed hdt = false -> read_head (t_data hdt) = Ok (head, long) ->
+  In mt ts -> t_tag mt = tag_maxp -> t_transformed mt = false -> read_maxp (t_data mt) = Ok (len gs) ->
+  In hht ts -> t_tag hht = tag_hhea -> t_transformed hht = false -> read_hhea (t_data hht) = Ok (len (fst h)) ->
+  write_glyf m (negb long) gs 0 = Ok (G, offs) ->
+  write_loca (negb (long || (65535 <? last offs 0 / 2))) offs = Some L ->
+  table_provider m {| f_flavor := flavor; f_dir := spec_entries 0 ts; f_coll := None;
+                      f_block := block_of ts |} index
+  = Ok ([(tag_hmtx, write_hmtx h); (tag_glyf, G);
+         (tag_head, write_head head (long || (65535 <? last offs 0 / 2))); (tag_loca, L)]
+        ++ map (fun t => (t_tag t, t_data t)) (filter (fun t => negb (rebuilt_tag (t_tag t))) ts)).
+Proof. exact transformed_font_tables_partial. Qed.
+Print Assumptions C11_transformed_font_tables_partial.
 
 (* an index outside the collection is refused (fixed by ba32cb9; it used to panic) *)
 Example C11_ex_collection_bad_index :
